@@ -307,7 +307,7 @@ static void seqs_check(const Json& c, Out& o) {
     if (ops.size() >= 2) { uint64_t k = 0xC15; for (auto& op : ops) k = mix(k, uint64_t(op.first) << 32 | op.second); o.nontrivial(k); }
 }
 static void seqs_gen(Ctx& ctx) {
-    ctx.rc("sequences", ctx.by_tier(60000, 480000), [&]() {
+    ctx.rc("sequences", ctx.by_tier(40000, 400000), [&]() {
         std::vector<long long> ops;
         const int len = pick(2, 10);
         const bool primes_heavy = flip();
